@@ -299,6 +299,49 @@ def r06h(F):
 		out.append(Result('06.h', False, 'floor:claim-builds', 'only %d claim-output builders found in the monitor (expected >= 6)' % n, n))
 	return out
 
+def r06j(F):
+	"""with a splice / RBF pending every counterparty commitment exists once per funding scope; the HTLC list recorded for a scope
+	(counterparty_claimable_outpoints[txid]) is paired from THAT scope's commitment transaction - output indices differ between scopes
+	(BIP69 ordering depends on the balances) and the justice branch treats an entry with a wrong index as corrupt and claims no HTLC"""
+	fn = MON + 'update_counterparty_commitment_data'
+	fu = F.func(fn)
+	ex = Expr(fu)
+	out = []
+	n = 0
+	for b, ci in fu.calls():
+		if not norm(ci.get('f') or '').endswith('HashMap::insert') or len(ci['args']) < 3:
+			continue
+		if 'counterparty_claimable_outpoints' not in expr_str(ex.of_operand(ci['args'][0])):
+			continue
+		n += 1
+		key = ex.of_operand(ci['args'][1])
+		val = ex.of_operand(ci['args'][2])
+		# the commitment the key is the txid of: innermost argument of txid(trust(X))
+		x = key
+		while x[0] in ('ref', 'deref') or (x[0] == 'call' and (x[1] or '').rsplit('::', 1)[-1] in ('txid', 'trust') and x[2]):
+			x = x[1] if x[0] in ('ref', 'deref') else x[2][0]
+		src = expr_str(x, 2)
+		vs = expr_str(val, 0)
+		in_loop = b in fu.reach(fu.succ(b))
+		ok = in_loop and (x[0] != 'local' or True) and _same_source(val, x)
+		out.append(Result('06.j', ok, ('ok:' if ok else 'stale:') + 'scope-htlcs-from-own-commitment', 'update_counterparty_commitment_data: the HTLC list stored under txid(%s) is %s computed from that same commitment transaction (value: %s)' % (src[:60], '' if ok else 'NOT', vs[:110]), 1, where=None if ok else F.where(fn, fu.line_of(b))))
+	if n == 0:
+		out.append(Result('06.j', False, 'anchor:pending-scope-insert', 'update_counterparty_commitment_data no longer inserts into a pending scope\'s counterparty_claimable_outpoints', where=F.where(fn)))
+	return out
+
+def _same_source(val, x):
+	"""does expression x occur (structurally) inside val?"""
+	if val == x:
+		return True
+	if not isinstance(val, tuple):
+		return False
+	for y in val[1:]:
+		if isinstance(y, tuple) and _same_source(y, x):
+			return True
+		if isinstance(y, list) and any(isinstance(z, tuple) and _same_source(z, x) for z in y):
+			return True
+	return False
+
 def r06i(F):
 	"""(i) splice: the per-commitment HTLC data copied into the new funding scope carries the output indices of the NEW commitment transaction
 	(otherwise the justice branch takes every HTLC entry for corrupt and claims none); (ii) the re-issue timer of a claim is only ever pulled
@@ -348,6 +391,7 @@ RULES = [
 	('06.e', 'every produced package reaches the on-chain claim handler', r06e),
 	('06.f', 'retention fields are persisted', r06f),
 	('06.g', 'revoked package variants are wired to the justice signer methods', r06g),
+	('06.j', 'each funding scope records a counterparty commitment\'s HTLCs as paired from its own commitment transaction (pending splice)', r06j),
 	('06.i', 'splice: HTLC output indices remapped to the new commitment; claim re-issue timers are only pulled earlier by deadlines', r06i),
 	('06.h', 'justice claims stay valid: re-queued claims carry the latest request state; reorg boundary keeps confirmed spends', r06h),
 	('06.p', 'same-name field transfer: structs carrying this property\'s quantities are filled from the same-named field or a reviewed alias (rules/provenance.py)', lambda F: provenance.for_property(F, 'C06', '06.p')),
